@@ -5,7 +5,8 @@
      gen      a goverter run (exit status, files written)          -- everything before the write loop happens in
                                                                       memory: a failing run writes nothing
      edit     the user changes the types (version 1 <-> 2): existing output becomes stale and does not compile
-     break    previously generated files are replaced by garbage below their two header lines
+     break    previously generated files are replaced by (shorter) garbage below their two header lines;
+              bloat appends garbage (the file gets longer), scramble overwrites the body in place (same size)
      delete   previously generated files are removed
      guard    a user file guarded by the output constraint that references generated code is added / removed
      bad(k)   a package with a faulty converter (directive / signature / conversion fault) is added / removed
@@ -15,12 +16,17 @@
 EXTENDS Integers, Sequences, FiniteSets, TLC
 
 \* tie: two function-format converters of different packages with the same name share one output file
-Layouts == {"separate", "same", "shared", "tie"}
-TagCfgs == {"default", "custom"}
+\* twofiles: two converters of one package, each with its own output file in that package
+Layouts == {"separate", "same", "shared", "tie", "twofiles"}
+\* multi: several build tags, the complementary one not last (-build-tags vtag,other -output-constraint !vtag)
+TagCfgs == {"default", "custom", "multi"}
 \* unknown2 / enumkeys2: two simultaneous faults of the same kind in one method (which one is reported must not vary)
-Faults == {"directive", "signature", "conversion", "unknown2", "enumkeys2", "fieldtargets2"}
+\* marker: a valid converter followed by a marker on a struct (fails while extracting converters)
+\* format: a converter whose output cannot be formatted (name "Bad-Impl"), in an output file of its own
+\* ctxmissing3: an extend function with three context parameters none of which is available
+Faults == {"directive", "signature", "conversion", "unknown2", "enumkeys2", "fieldtargets2", "marker", "format", "ctxmissing3"}
 GenVariants == {"root-dots", "flag-dots", "root-listed", "root-reversed", "root-dup"}
-Ops == {[op |-> "gen", v |-> x] : x \in GenVariants} \cup {[op |-> "edit"], [op |-> "break"], [op |-> "delete"], [op |-> "guard"]}
+Ops == {[op |-> "gen", v |-> x] : x \in GenVariants} \cup {[op |-> "edit"], [op |-> "break"], [op |-> "bloat"], [op |-> "scramble"], [op |-> "delete"], [op |-> "guard"]}
         \cup {[op |-> "bad", k |-> k] : k \in Faults} \cup {[op |-> "unbad"]}
 
 \* output files of a layout, as <<path, package clause>>
@@ -28,6 +34,7 @@ Outputs(layout) ==
   CASE layout = "separate" -> {<<"conv/generated/generated.go", "generated">>}
     [] layout = "same" -> {<<"conv/conv_gen.go", "conv">>}
     [] layout \in {"shared", "tie"} -> {<<"shared/gen.go", "shared">>}
+    [] layout = "twofiles" -> {<<"conv/a_gen.go", "conv">>, <<"conv/b_gen.go", "conv">>}
 
 Absent == [k |-> "absent"]
 Out(v, b) == [k |-> "present", ver |-> v, broken |-> b]
@@ -41,7 +48,7 @@ Compiles(st) == st.bad = "none" /\ st.out.k = "present" /\ ~st.out.broken /\ st.
 \* result of one step: new state and, for gen, the predicted observation
 Step(st, o) ==
   CASE o.op = "edit" -> [st |-> [st EXCEPT !.ver = 3 - st.ver], exit |-> -1]
-    [] o.op = "break" -> [st |-> IF st.out.k = "present" THEN [st EXCEPT !.out.broken = TRUE] ELSE st, exit |-> -1]
+    [] o.op \in {"break", "bloat", "scramble"} -> [st |-> IF st.out.k = "present" THEN [st EXCEPT !.out.broken = TRUE] ELSE st, exit |-> -1]
     [] o.op = "delete" -> [st |-> [st EXCEPT !.out = Absent], exit |-> -1]
     [] o.op = "guard" -> [st |-> [st EXCEPT !.guard = ~st.guard], exit |-> -1]
     [] o.op = "bad" -> [st |-> [st EXCEPT !.bad = o.k], exit |-> -1]
